@@ -211,6 +211,12 @@ def body_mapped(c, ctx):
     invDF = np.linalg.inv(np.moveaxis(DF, (0, 1), (-2, -1)))         # (..., a, j)
     invDF = np.moveaxis(invDF, (-2, -1), (0, 1))                     # (a, j, ncells, npts)
     tolr = 1e-9 if affine else 2e-6
+    if _has_family(c['elem'], ('global-c1', 'global-c0', 'global-noncon')):
+        # per-cell Vandermonde inversion in physical monomials: precision degrades with coordinate magnitude and 1/h
+        # (observed 1.3e-9 at offset/size 8); the oracle itself stays exact
+        R = float(np.abs(m.p).max())
+        hmin = float(np.sqrt(((m.p[:, m.facets[0]] - m.p[:, m.facets[-1]]) ** 2).sum(0)).min()) if m.dim() > 1 else float(np.abs(np.diff(np.sort(m.p[0]))).min())
+        tolr = 1e-7 * max(1.0, R, 1.0 / max(hmin, 1e-12))
     for comp, f0 in enumerate(fields):
         def phys_grad(getter):
             """physical gradient of the array field getter(fields)[comp]: returns (lead..., j, cells, pts)"""
